@@ -414,7 +414,104 @@ impl Prop for Ctors {
     }
 }
 
+#[derive(Debug, Clone, Hash, Serialize, Deserialize)]
+pub struct EdgeCase {
+    pub recv: Inst,
+    pub off: i32,
+    pub field: u8,
+    pub v: i64,
+}
+
+/// DateTime setters on receivers on the outermost days of the range: "never panic" has no
+/// exception there. Valid local result and representable instant => Ok with that value; valid
+/// local result whose instant (local - offset) is not representable => OutOfRange.
+pub struct SettersAtRangeEnds;
+impl Prop for SettersAtRangeEnds {
+    type Case = EdgeCase;
+    const NAME: &'static str = "C15.setters_at_range_ends";
+    const BYTES: usize = 64;
+    fn gen(u: &mut Unstructured<'_>) -> arbitrary::Result<EdgeCase> {
+        let (recv, off) = gen::edge_inst_off(u)?;
+        let lf = tl::fields(recv.i() + off as i128 * tl::NS);
+        let field = u.int_in_range(0..=9u8)?;
+        let v = match field {
+            0 => lf.year + u.range_i64(-1, 1)?,
+            1 => (lf.month as i64 + u.range_i64(-2, 2)?).clamp(0, 13),
+            2 => (lf.dom as i64 + u.range_i64(-3, 3)?).clamp(0, 32),
+            3 => (cal::day_of_year(lf.day) as i64 + u.range_i64(-3, 3)?).clamp(0, 367),
+            4 => u.range_i64(0, 24)?,
+            5 | 6 => u.range_i64(0, 60)?,
+            7 => u.range_i64(0, 1000)?,
+            8 => u.range_i64(0, 1_000_000)?,
+            _ => u.range_i64(0, 1_000_000_000)?,
+        };
+        Ok(EdgeCase { recv, off, field, v })
+    }
+    fn check(c: &EdgeCase, cx: &mut Cx) -> Verdict {
+        if !c.recv.valid() || c.off.abs() > 86_399 || c.field > 9 || (c.field == 0 && i32::try_from(c.v).is_err()) || (c.field != 0 && u32::try_from(c.v).is_err()) {
+            return Verdict::Skip("malformed case");
+        }
+        let utc = c.recv.i();
+        let local = utc + c.off as i128 * tl::NS;
+        if !tl::representable(local) {
+            return Verdict::Skip("receiver whose local reading is not representable cannot be built");
+        }
+        let want_local = c09::model(local, &c09::Op::Set { field: c.field, v: c.v });
+        let want: Option<i128> = want_local.and_then(|wl| {
+            let w = wl - c.off as i128 * tl::NS;
+            if tl::representable(w) && tl::representable(wl) {
+                Some(w)
+            } else {
+                None
+            }
+        });
+        if want_local.is_some() && want.is_none() {
+            cx.nt("valid_local_result_but_unrepresentable_instant");
+        }
+        if c.off != 0 {
+            cx.nt("offset_receiver_on_an_outermost_day");
+        }
+        let name = DT_SETTERS[c.field as usize].0;
+        let what = format!("DateTime::{}({}) on {} [offset {}]", name, c.v, fmt_instant(utc), c.off);
+        let r = catch(|| -> Result<i128, AstrolabeError> {
+            let d = mk_dt_off(utc, c.off);
+            let r = match c.field {
+                0 => d.set_year(c.v as i32)?,
+                1 => d.set_month(c.v as u32)?,
+                2 => d.set_day(c.v as u32)?,
+                3 => d.set_day_of_year(c.v as u32)?,
+                4 => d.set_hour(c.v as u32)?,
+                5 => d.set_minute(c.v as u32)?,
+                6 => d.set_second(c.v as u32)?,
+                7 => d.set_milli(c.v as u32)?,
+                8 => d.set_micro(c.v as u32)?,
+                _ => d.set_nano(c.v as u32)?,
+            };
+            Ok(rd_dt(&r))
+        });
+        match (want, r) {
+            (_, Err(p)) => fail(&format!("c15.{}.panic_at_range_end", name), format!("{} returns a Result", what), p.short()),
+            (Some(w), Ok(Ok(i))) => {
+                if i != w {
+                    return fail(&format!("c15.{}.wrong_value_at_range_end", name), format!("{} = {}", what, fmt_instant(w)), fmt_instant(i));
+                }
+                Verdict::Pass
+            }
+            (Some(w), Ok(Err(e))) => fail(&format!("c15.{}.rejects_valid_at_range_end", name), format!("{} = Ok({})", what, fmt_instant(w)), format!("Err({})", e)),
+            (None, Ok(Ok(i))) => fail(&format!("c15.{}.accepts_unrepresentable", name), format!("{} = Err(OutOfRange)", what), format!("Ok({})", fmt_instant(i))),
+            (None, Ok(Err(e))) => {
+                if matches!(e, AstrolabeError::OutOfRange(_)) {
+                    Verdict::Pass
+                } else {
+                    fail(&format!("c15.{}.wrong_error_kind", name), "OutOfRange", format!("{:?}", e))
+                }
+            }
+        }
+    }
+}
+
 pub fn run(env: &mut Env) {
     let t = env.thorough();
     env.run_random::<Ctors>(if t { 40_000_000 } else { 4_000_000 });
+    env.run_random::<SettersAtRangeEnds>(if t { 5_000_000 } else { 500_000 });
 }
